@@ -5,7 +5,7 @@
    A label set is a set of <<name, value>> pairs (byte strings) with unique names.
    A record is [id, ts, line, attrs (sequence of <<name, value>>), doc (sequence of <<key, value>>)].
    Stage(st, mem, ts, line, L) = [keep, line, L, mem]; mem is the memory of stateful stages (distinct). *)
-EXTENDS Integers, Sequences, FiniteSets, Bytes, Regex, Labels, Names, Num, JsonDoc, Tmpl, Pattern
+EXTENDS Integers, Sequences, FiniteSets, Bytes, Regex, Labels, Names, Num, JsonDoc, Tmpl, Pattern, Ip
 
 PairsOf(seq) == {seq[i] : i \in DOMAIN seq}
 NamesOf(L) == {p[1] : p \in L}
@@ -44,6 +44,13 @@ Pred(p, L) ==
               IF v.k = "bad" THEN [keep |-> TRUE, L |-> SetError(L), open |-> FALSE]     \* unparsable: keep, flag
               ELSE IF v.k = "unspec" THEN [keep |-> TRUE, L |-> L, open |-> TRUE]
               ELSE [keep |-> RCmp(p.op, [n |-> v.n, d |-> v.d], [n |-> p.val[1], d |-> p.val[2]]), L |-> L, open |-> FALSE]
+    \* addr = ip("..."): no such label: drop; a value that is no address: keep and flag; IPv6 texts are outside the model
+    [] p.t = "ip" ->
+         IF ~Has(L, p.label) THEN [keep |-> FALSE, L |-> L, open |-> FALSE]
+         ELSE LET v == Get(L, p.label) a == ParseIPv4(v) IN
+              IF ~IpScannable(v) THEN [keep |-> TRUE, L |-> L, open |-> TRUE]
+              ELSE IF ~a.ok THEN [keep |-> TRUE, L |-> SetError(L), open |-> FALSE]
+              ELSE [keep |-> IpMatch(p.ipat, a.a) = (p.op = "eq"), L |-> L, open |-> FALSE]
     [] p.t = "paren" -> Pred(p.a, L)
     [] p.t = "and" -> LET a == Pred(p.a, L) IN
                       IF ~a.keep /\ ~a.open THEN a
@@ -57,6 +64,7 @@ RECURSIVE PredWellFormed(_)
 PredWellFormed(p) ==
   CASE p.t = "m" -> (p.op \in {"re", "nre"} => p.val = ReText(p.re))
     [] p.t \in {"num", "dur", "bytes"} -> LET v == Parse(p.t, p.lit) IN v.k = "val" /\ REq([n |-> v.n, d |-> v.d], [n |-> p.val[1], d |-> p.val[2]])
+    [] p.t = "ip" -> IpPatWellFormed(p.ipat) /\ p.val = IpPatText(p.ipat) /\ p.op \in {"eq", "neq"}
     [] p.t = "paren" -> PredWellFormed(p.a)
     [] p.t \in {"and", "or"} -> PredWellFormed(p.a) /\ PredWellFormed(p.b)
 
@@ -141,8 +149,11 @@ Malformed(line, L, mem) == [keep |-> TRUE, line |-> line, L |-> SetError(L), mem
 Rewritten(rec, line) == line # rec.line
 Stage(st, mem, rec, line, L) ==
   CASE st.t \in {"logfmt", "json", "unpack"} /\ Rewritten(rec, line) -> R0(TRUE, line, L, mem, TRUE)
-    \* (an ip("...") needle is outside the modelled grammar: only the relations of C19 are checked on it)
-    [] st.t = "line" -> IF Fld(st, "ip", FALSE) THEN R0(TRUE, line, L, mem, TRUE) ELSE R0(LineMatch(st.op, st.val, st.re, line), line, L, mem, FALSE)
+    \* an ip("...") needle: the line passes |= when it holds an address the pattern accepts, != is the complement;
+    \* IPv6 patterns (no ipat) and lines the IPv4 transcription does not cover are outside the modelled grammar
+    [] st.t = "line" -> IF ~Fld(st, "ip", FALSE) THEN R0(LineMatch(st.op, st.val, st.re, line), line, L, mem, FALSE)
+                        ELSE IF Fld(st, "ipat", <<>>) = <<>> \/ ~IpScannable(line) THEN R0(TRUE, line, L, mem, TRUE)
+                        ELSE R0(LineHasIp(st.ipat, line) = (st.op = "eq"), line, L, mem, FALSE)
     [] st.t = "label" -> LET r == Pred(st.pred, L) IN R0(r.keep, line, r.L, mem, r.open)
     [] st.t = "logfmt" ->
          IF Fld(rec, "lmal", FALSE) THEN Malformed(line, L, mem)
@@ -190,7 +201,9 @@ Stage(st, mem, rec, line, L) ==
     [] st.t = "decolorize" -> R0(TRUE, StripSGR(line, 1), L, mem, FALSE)
 
 StageWellFormed(st) ==
-  CASE st.t = "line" -> (st.op \in {"re", "nre"} => st.val = ReText(st.re))
+  CASE st.t = "line" -> IF Fld(st, "ip", FALSE) /\ Fld(st, "ipat", <<>>) # <<>>
+                          THEN IpPatWellFormed(st.ipat) /\ st.val = IpPatText(st.ipat) /\ st.op \in {"eq", "neq"}
+                          ELSE (st.op \in {"re", "nre"} => st.val = ReText(st.re))
     [] st.t = "label" -> PredWellFormed(st.pred)
     [] st.t \in {"drop", "keep"} -> LET ms == Fld(st, "matchers", <<>>) IN \A k \in DOMAIN ms : ms[k].op \in {"re", "nre"} => ms[k].val = ReText(ms[k].re)
     [] st.t = "labelfmt" -> \A k \in DOMAIN st.renames : st.renames[k].dst # st.renames[k].src
